@@ -22,6 +22,18 @@ DEFAULT_POSITIVE = (
 _CMP = {ast.Gt: "gt", ast.GtE: "ge", ast.Lt: "lt", ast.LtE: "le", ast.Eq: "eq", ast.NotEq: "ne"}
 
 
+def mk_attr(base, path: str):
+    """Attribute access in one canonical form: `x.a.b` is the same term whether it is written as a chain, reached through an
+    alias (`y = x.a; y.b`) or through a bound name."""
+    if isinstance(base, Rat):
+        at = base.as_atom()
+        if at is not None and at.op == "sym" and isinstance(at.args[0], str) and not at.args[0].startswith("!"):
+            return sym(at.args[0] + "." + path)
+        if at is not None and at.op == "attr" and isinstance(at.args[1], str):
+            return app("attr", at.args[0], at.args[1] + "." + path)
+    return app("attr", base, path)
+
+
 def _mark_scalar(c):
     """Conditions of Python `if` / conditional expressions have a single truth value per call."""
     if isinstance(c, Rat):
@@ -43,6 +55,19 @@ _fresh = [0]
 def fresh(tag="opaque") -> Rat:
     _fresh[0] += 1
     return app("opaque", f"{tag}#{_fresh[0]}")
+
+
+# operations that exist both as torch.<op>(tensor, ...) and tensor.<op>(...), with their positional parameters after the tensor
+TENSOR_OPS = {
+    "roll": ["shifts", "dims"], "clamp": ["min", "max"], "clamp_min": ["min"], "clamp_max": ["max"], "sum": ["dim", "keepdim"],
+    "nansum": ["dim", "keepdim"], "mean": ["dim", "keepdim"], "amax": ["dim", "keepdim"], "amin": ["dim", "keepdim"], "unsqueeze": ["dim"],
+    "squeeze": ["dim"], "flip": ["dims"], "cumsum": ["dim"], "gather": ["dim", "index"], "scatter": ["dim", "index", "src"],
+    "logical_and": ["other"], "logical_or": ["other"], "logical_xor": ["other"], "logical_not": [], "abs": [], "exp": [], "log": [],
+    "sqrt": [], "argwhere": [], "nonzero": [], "diff": ["n", "dim"], "tensor_split": ["indices_or_sections", "dim"], "nan_to_num": ["nan", "posinf", "neginf"],
+    "heaviside": ["values"], "maximum": ["other"], "minimum": ["other"], "fmod": ["other"], "remainder": ["other"], "floor": [], "ceil": [], "round": [],
+    "sign": [], "permute": ["dims"], "movedim": ["source", "destination"], "flatten": ["start_dim", "end_dim"], "masked_fill": ["mask", "value"],
+    "index_select": ["dim", "index"], "any": ["dim", "keepdim"], "all": ["dim", "keepdim"], "isnan": [], "isinf": [], "numel": [],
+}
 
 
 VALIDATORS = {"lt", "lte", "gt", "gte", "neq", "minmax_incl", "minmax_excl", "min_excl_max_incl", "min_incl_max_excl", "integer",
@@ -126,9 +151,9 @@ class Builder:
             if base in self.env and not isinstance(self.env[base], Rat):
                 pass
             elif base in self.env:
-                return app("attr", self.env[base], ".".join(d.split(".")[1:]))
+                return mk_attr(self.env[base], ".".join(d.split(".")[1:]))
             return sym(d)
-        return app("attr", self.t(e.value), e.attr)
+        return mk_attr(self.t(e.value), e.attr)
 
     def e_UnaryOp(self, e):
         x = self.t(e.operand)
@@ -557,6 +582,19 @@ class Builder:
             return app(n, *sorted(args, key=nf.show))
         if n in ("maximum", "minimum") and len(args) == 2:
             return app({"maximum": "max", "minimum": "min"}[n], *sorted(args, key=nf.show))
+        # torch's function form and method form of one operation are one operation: `torch.roll(x, shifts=s, dims=0)` is
+        # `x.roll(s, 0)`.  Keyword arguments are put in their positional slots as far as they are contiguous from the front.
+        if n in TENSOR_OPS and args and (is_method or (e is not None and isinstance(e.func, ast.Attribute) and dotted(e.func.value) in ("torch", "F"))):
+            sig = TENSOR_OPS[n]
+            rest = list(args[1:])
+            kws = dict(kws)
+            for nm in sig[len(rest):]:
+                if nm in kws:
+                    rest.append(kws.pop(nm))
+                else:
+                    break
+            args = [args[0]] + rest
+            is_method = True
         kwt = tuple((k, v) for k, v in sorted(kws.items()))
         op = ("m." if is_method else "f.") + n
         if kwt:
@@ -726,7 +764,8 @@ class Builder:
                 if isinstance(n, ast.Return):
                     raise Opaque("return inside loop/try/match")
         elif isinstance(st, (ast.FunctionDef, ast.ClassDef)):
-            self.env[st.name] = app("localdef", st.name)
+            # a nested definition is identified by its name and its (canonical) text: closures are compared as written
+            self.env[st.name] = app("localdef", st.name, _canon_region_text(st) if self.track_effects else "")
         else:
             raise Opaque(type(st).__name__)
 
@@ -789,6 +828,10 @@ class Builder:
             if d is not None:
                 self.stores[d] = v
                 self.env[d] = v
+            elif self.track_effects:
+                # a store through a computed object (`getattr(self, name).duration = v`): kept as an ordered effect
+                vv = v if isinstance(v, Rat) else (app("tuple", *v) if isinstance(v, tuple) else app("const", str(v)))
+                self.stores["!effects"] = app("seq", self.stores.get("!effects", sym("!effects")), app("store", self.t(tgt.value), app("const", tgt.attr), vv))
         elif isinstance(tgt, ast.Subscript):
             d = dotted(tgt.value)
             if d is not None:
@@ -979,10 +1022,27 @@ def simple_function(node: ast.FunctionDef) -> bool:
     return True
 
 
+def signature_term(b: "Builder", node) -> Rat:
+    """Defaults of the parameters (and which parameters there are): part of what a function does for its callers."""
+    a = node.args
+    pos = a.posonlyargs + a.args
+    items = []
+    for x, d in zip(pos[len(pos) - len(a.defaults):], a.defaults):
+        items.append((x.arg, b.t(d)))
+    for x, d in zip(a.kwonlyargs, a.kw_defaults):
+        if d is not None:
+            items.append((x.arg, b.t(d)))
+    names = tuple(x.arg for x in pos + a.kwonlyargs) + (("*" + a.vararg.arg,) if a.vararg else ()) + (("**" + a.kwarg.arg,) if a.kwarg else ())
+    return app("signature", names, tuple(sorted(items, key=lambda kv: kv[0])))
+
+
 def function_term(prog: Program, func: Func, env=None, **opts):
     """Term returned by `func` with parameters as symbols (or bound through env)."""
     b = Builder(prog, func, env or {}, **opts)
-    return b.run(strip_doc(func.node.body)), b
+    r = b.run(strip_doc(func.node.body))
+    if b.track_effects:
+        b.stores["!signature"] = signature_term(Builder(prog, func, {}, inline_depth=0), func.node)
+    return r, b
 
 
 def expr_term(src: str, env=None, prog=None, func=None, **opts):
